@@ -78,37 +78,11 @@ func Classify(clause string, stepOp *Op, detail string, ops []Op, opIndex []int,
 			return "padded-data" // F6
 		}
 	case "ledger-stream":
-		// F51: the relay scans its queues after EVERY value of SETTINGS_INITIAL_WINDOW_SIZE, so one
-		// SETTINGS frame that repeats the identifier releases DATA under its intermediate values.
-		// detail = who:sid:len=L:window=W (W = the receiver's own ledger under the value in force).
-		// The class, from the schedule alone (largerIntermediate):
-		//   (a) the op of the failing step is a SETTINGS frame written by `who`, the endpoint the DATA
-		//       frame arrived at (released towards the author of the frame while it was processed);
-		//   (b) that frame names INITIAL_WINDOW_SIZE at least twice and a NON-FINAL value exceeds the
-		//       final one (RFC 7540 6.5.3: the final one is in force once the frame is processed);
-		//   (c) DATA beyond the credit in force was written towards `who` on that stream before the
-		//       frame: octets of the other side's DATA ops on sid > final value + the increments `who`
-		//       sent for sid (otherwise no release on sid can exceed the final value's credit).
-		// On top of the class the record itself must be one the scan after the largest non-final
-		// value can produce: len <= W + (largest non-final value - final value).  A frame beyond that,
-		// a failure in any other step, on the other endpoint, or under a frame outside (b) stays a
-		// violation - as does every ledger-conn failure (SETTINGS never moves the connection window).
-		if stepOp == nil || len(parts) < 4 || opIndex == nil || step >= len(opIndex) || opIndex[step] < 0 {
-			return ""
-		}
-		sid64, err := strconv.ParseUint(parts[1], 10, 32)
-		if err != nil || !strings.HasPrefix(parts[2], "len=") || !strings.HasPrefix(parts[3], "window=") {
-			return ""
-		}
-		l, err1 := strconv.ParseInt(parts[2][4:], 10, 64)
-		w, err2 := strconv.ParseInt(parts[3][7:], 10, 64)
-		if err1 != nil || err2 != nil {
-			return ""
-		}
-		final, largest, ok := largerIntermediate(ops, opIndex[step], parts[0], uint32(sid64))
-		if ok && l <= w+(largest-final) {
-			return "settings-larger-intermediate-initial-window"
-		}
+		// No class: F51 (a SETTINGS frame whose INITIAL_WINDOW_SIZE chain has a non-final value above
+		// the last one released DATA the value in force does not cover) is repaired - the relay reads
+		// the frame completely and applies the value in force, once.  Such chains are still generated
+		// with DATA outstanding (gen.go repeatedSettings) and the witness stays in the corpus: a
+		// re-occurrence is a violation like every other ledger failure.
 	case "frame-size":
 		// F14: frames are split when queued.  The class: the frame belongs to an op written before the
 		// receiver lowered MAX_FRAME_SIZE, it respected the limit in force then, and the limit was
@@ -198,38 +172,6 @@ func initWinChain(op *Op) []int64 {
 		}
 	}
 	return vs
-}
-
-// largerIntermediate is the input-only predicate of class settings-larger-intermediate-initial-window
-// (F51) for ops[at], endpoint who and stream sid - conditions (a)-(c) at Classify "ledger-stream".
-// It returns the final and the largest non-final INITIAL_WINDOW_SIZE value of the frame.
-func largerIntermediate(ops []Op, at int, who string, sid uint32) (final, largest int64, ok bool) {
-	if at < 0 || at >= len(ops) || ops[at].Kind != "set" || ops[at].Side != who {
-		return 0, 0, false
-	}
-	vs := initWinChain(&ops[at])
-	if len(vs) < 2 {
-		return 0, 0, false
-	}
-	final = vs[len(vs)-1]
-	for _, v := range vs[:len(vs)-1] {
-		if v > largest {
-			largest = v
-		}
-	}
-	if largest <= final {
-		return 0, 0, false
-	}
-	var sent, inc int64
-	for i := 0; i < at; i++ {
-		switch op := &ops[i]; {
-		case op.Kind == "data" && op.Side != who && op.Sid == sid:
-			sent += int64(op.Len)
-		case op.Kind == "wu" && op.Side == who && op.Sid == sid:
-			inc += int64(op.Inc)
-		}
-	}
-	return final, largest, sent > final+inc
 }
 
 // killerClass: the schedule contains an op of a class recorded as stopping a relay direction.
